@@ -74,7 +74,12 @@ func (c *c11Conn) Close() error {
 		}
 	}
 	c.closed.Store(true)
-	return c.Conn.Close()
+	err := c.Conn.Close()
+	if err == nil && c.id%3 == 2 {
+		// tls-like: the connection is closed, but Close reports that the peer could not be told
+		return errors.New("c11: failed to send closeNotify alert (but connection was closed anyway)")
+	}
+	return err
 }
 
 func (e *c11Env) violation(format string, a ...any) {
